@@ -48,8 +48,8 @@ Section Chain.
   (* facts about a committed operation relative to the manifest it was applied to *)
   Definition GoodOp (m : manifest) (o : op) : Prop :=
     match o with
-    | Delete upd _ | Update _ upd _ _ _ _ _ =>
-        forall u c, In u upd -> find_frag (f_id u) (m_frags m) = Some c -> incl (dels_of c) (dels_of u)
+    | Delete upd removed | Update removed upd _ _ _ _ _ =>
+        forall u c, In u upd -> ~ In (f_id u) removed -> find_frag (f_id u) (m_frags m) = Some c -> incl (dels_of c) (dels_of u)
     | Project s => incl s (m_schema m) /\ forall f, In f (m_frags m) -> keeps_file s f
     | _ => True
     end.
